@@ -53,7 +53,10 @@ Definition parse_key_i (m : bool * bool) : option bool := if fst m then Some (sn
 Definition rsa_verify_i (rk : bool) (_ _ : bytes) : bool := rk.
 
 Definition pcode_eqb (a b : pcode) : bool :=
-  (p_code a =? p_code b) && (p_valid a =? p_valid b)%Z && (p_expire a =? p_expire b)%Z
+  (p_code a =? p_code b)
+  && Bool.eqb (p_has_valid a) (p_has_valid b) && Bool.eqb (p_has_expire a) (p_has_expire b)
+  && (negb (p_has_valid a) || (p_valid a =? p_valid b)%Z)
+  && (negb (p_has_expire a) || (p_expire a =? p_expire b)%Z)
   && Bool.eqb (p_consumed a) (p_consumed b) && (p_tried a =? p_tried b)%Z.
 
 Definition opt_eqb {A} (f : A -> A -> bool) (a b : option A) : bool :=
@@ -85,7 +88,13 @@ Inductive ccase :=
 | CCheck (mt : mtab) (k : N) (hexmode : bool) (tok : bytes) (exp : option bytes)
 | CSessNew (mt : mtab) (k : N) (maxttl ttl t0 : Z) (data exp_tok : bytes) (exp_expires : Z)
 | CSessCheck (mt : mtab) (k : N) (now : Z) (tok : bytes) (exp : option (bytes * Z))
-| CGate (mt : mtab) (k : N) (now : Z) (tok : bytes) (exp : option bytes)
+| CGate (mt : mtab) (k : N) (maxttl now : Z) (tok : bytes) (exp : option (bytes * bool))
+| CChal (mt : mtab) (k : N) (w now : Z) (tok : bytes) (ct : option Z) (exp : N)
+| CCoreSign (privs : list (bytes * bool)) (card : list ckey) (req : bytes) (now : Z)
+            (exp_err : N) (exp_id : bytes)
+| CExchange (card : list ckey) (issuer audience user : bytes) (now : Z) (tok : bytes)
+            (hp : option header) (cp : option claims) (ttl : Z)
+            (mt : mtab) (k : N) (maxttl : Z) (exp_err : N) (exp_tok : bytes) (exp_expires : Z)
 | CTsNew (mt : mtab) (k : N) (t0 : Z) (exp : bytes)
 | CTsCheck (mt : mtab) (k : N) (w now : Z) (tok : bytes) (exp : bool)
 | CRsaTime (w now : Z) (data hash hashd : bytes) (sigok : bool) (exp : N)
@@ -96,7 +105,7 @@ Inductive ccase :=
          (hp : option header) (cp : option claims) (exp_err : N) (exp_claims : option claims)
 | CClaims (c tmpl : claims) (exp : N)
 | CJwtTime (c : claims) (now : Z) (exp : N)
-| CPass (expiry : Z) (ops : list pop) (exp : list (N * rstate)).
+| CPass (expiry : Z) (start : rstate) (ops : list pop) (exp : list (N * rstate)).
 
 Definition jres_agrees (r : jres token) (exp_err : N) (exp_claims : option claims) : bool :=
   match r with
@@ -124,8 +133,35 @@ Definition check_case (c : ccase) : bool :=
       | Some (d, l), Some (d', l') => beq_bytes d d' && (l =? l')%Z
       | _, _ => false
       end
-  | CGate mt k now tok exp =>
-      opt_bytes_eqb (option_map fst (sess_check (mac_of mt) k now tok)) exp
+  | CGate mt k maxttl now tok exp =>
+      match sess_check (mac_of mt) k now tok, exp with
+      | None, None => true
+      | Some (d, lf), Some (d', nr) => beq_bytes d d' && Bool.eqb (need_refresh maxttl lf) nr
+      | _, _ => false
+      end
+  | CChal mt k w now tok ct exp =>
+      match challenge_check (mac_of mt) (fun _ => ct) k w now tok with
+      | None => 0 | Some ChInvalid => 1 | Some ChFuture => 2 | Some ChExpired => 3
+      end =? exp
+  | CCoreSign privs card req now exp_err exp_id =>
+      match core_pick (fun b : bool => if b then Some tt else None) privs card req now with
+      | COk (id, _) => (exp_err =? 0) && beq_bytes id exp_id
+      | CErr e =>
+          match e with
+          | CsKeyNotFound => 1 | CsPubNotFound => 2 | CsType => 3 | CsNotYet => 4
+          | CsExpired => 5 | CsParse => 6 | CsNoKey => 7
+          end =? exp_err
+      end
+  | CExchange card issuer audience user now tok hp cp ttl mt k maxttl exp_err exp_tok exp_expires =>
+      match exchange (fun _ => hp) (fun _ => cp) b64_decode_canon parse_key_i rsa_verify_i
+                     (fun ttl' u => sess_new (mac_of mt) k maxttl now ttl' u)
+                     card issuer audience now tok user ttl with
+      | inl (t, e) => (exp_err =? 0) && beq_bytes t exp_tok && (e =? exp_expires)%Z
+      | inr XNoToken => exp_err =? 30
+      | inr (XToken e) => jerr_code e =? exp_err
+      | inr (XClaims e) => jerr_code e =? exp_err
+      | inr XTtl => exp_err =? 31
+      end
   | CTsNew mt k t0 exp => beq_bytes (ts_token (mac_of mt) k t0) exp
   | CTsCheck mt k w now tok exp => Bool.eqb (ts_check (mac_of mt) k w now tok) exp
   | CRsaTime w now data hash hashd sigok exp =>
@@ -145,7 +181,7 @@ Definition check_case (c : ccase) : bool :=
         exp_err exp_claims
   | CClaims c tmpl exp => opt_code (check_claims c tmpl) =? exp
   | CJwtTime c now exp => opt_code (check_time c now) =? exp
-  | CPass expiry ops exp => results_eqb (run expiry init_state ops) exp
+  | CPass expiry start ops exp => results_eqb (run expiry start ops) exp
   end.
 
 Fixpoint mismatches_from (i : nat) (cs : list ccase) : list nat :=
